@@ -265,7 +265,7 @@ static void mode_raw(fm_t* m, uint64_t* nontrivial)
                 uint32_t q = quads[qi];
                 uint32_t pos = q * 32 + off;
                 size_t span = (size_t)q * 4 + ((off + w + 31) / 32) * 4;   /* bytes touched at most */
-                size_t n = span + 8 < MAXHDR ? MAXHDR : span + 8;
+                size_t n = span + 16 < MAXHDR ? MAXHDR : span + 16;
                 desc[0].quadlet = 0; desc[0].offset = 0; desc[0].bits = 8;
                 desc[1].quadlet = (uint8_t)q; desc[1].offset = (uint8_t)off; desc[1].bits = (uint8_t)w;
                 desc[2].quadlet = 1; desc[2].offset = 3; desc[2].bits = 29;
@@ -1082,7 +1082,7 @@ int main(void)
     uint64_t seed = vp_cfg_u64("SEED", 1);
     g_reps = vp_cfg_u64("REPS", 50);
     g_place = (uint32_t)vp_cfg_u64("PLACE", 0);
-    vp_ctx_init(c, seed, 0x1000 + (uint64_t)mode[0] * 131 + g_place);
+    vp_ctx_init(c, seed, 0x1000 + (uint64_t)mode[0] * 131);
     c->tdump = (int)vp_cfg_u64("DUMP", 0);
     fm_t m, m2;
     fm_new(&m, c); fm_new(&m2, c);
